@@ -64,12 +64,17 @@ def obj_multi3(x):
     return [float(sum(v * v for v in vs)), float(sum(abs(v) for v in vs)), float(max(vs) - min(vs))]
 
 
+def obj_multi1(x):
+    """a single objective handed back as a one-element list (`float | list[float]` admits it)"""
+    return [obj_sphere(x)]
+
+
 def obj_plateau(x):
     """integer-valued: whole regions of the space share one cost (ties between agents at different positions)"""
     return float(sum(math.floor(abs(v)) for v in _flat(x)))
 
 
-OBJECTIVES = {"plateau": obj_plateau, "sphere": obj_sphere, "linear": obj_linear, "rastrigin": obj_rastrigin, "neg": obj_neg, "multi2": obj_multi2, "multi3": obj_multi3}
+OBJECTIVES = {"plateau": obj_plateau, "sphere": obj_sphere, "linear": obj_linear, "rastrigin": obj_rastrigin, "neg": obj_neg, "multi1": obj_multi1, "multi2": obj_multi2, "multi3": obj_multi3}
 
 
 # ------------------------------------------------------------------------------------------------
